@@ -147,7 +147,7 @@ def check_group(job):
                     res = dsreplay.do_request(data, r)
                 out["n"] += 1
                 results.append([np.array(a, float) for a in res])
-                msg = _expected_ok(r, step["e"], res)
+                msg = _expected_ok(r, step["e"], res) if "e" in step else None      # random sequences: TLC judges the values (trace validation)
                 if msg:
                     div("history:result", "after %s, request %s: %s" % ([s["r"] for s in seq[:q]], r, msg), seq, q)
                     break
